@@ -74,7 +74,7 @@ func (n Note) MarshalYAML() (any, error) {
 }
 
 var (
-	noteRegex = regexp.MustCompile(`([A-G])([#b]?)`)
+	noteRegex = regexp.MustCompile(`^([A-G])([#b♯♭]?)$`)
 )
 
 func ParseNote(s string) (Note, error) {
